@@ -885,7 +885,61 @@ func c11CookieScope(p *Prog, r *Report) {
 				nP++
 				r.Fn(FName(fn))
 				r.Paths++
-				r.Check(nonEmptyString(p, fn, st.Val, st, 0), "C11.R7", FName(fn)+": the affinity cookie's Path is never empty", p.InstrPos(st), "a non-empty constant, or a configured path on the edge that found it non-empty",
+				okPath := nonEmptyString(p, fn, st.Val, st, 0)
+				if !okPath {
+					// stored as configured and fixed up afterwards (`if c.Path == "" { c.Path = "/" }`): from this
+					// store no issue point (SetCookie / Header.Add / return) is reachable without passing a
+					// non-empty store to the same field or the non-empty edge of a test of it
+					want := BuildExpr(p, st.Addr, nil).String()
+					var nonEmptyEdges []Edge
+					for _, ifi := range ifs(fn) {
+						cnd, pos := condStrip(ifi.Cond)
+						bo, ok := cnd.(*ssa.BinOp)
+						if !ok || (bo.Op != token.NEQ && bo.Op != token.EQL) {
+							continue
+						}
+						c, ok := bo.Y.(*ssa.Const)
+						if !ok || c.Value == nil || c.Value.Kind() != constant.String || constant.StringVal(c.Value) != "" {
+							continue
+						}
+						u, ok := stripConv(bo.X).(*ssa.UnOp)
+						if !ok || BuildExpr(p, u.X, nil).String() != want {
+							continue
+						}
+						k := 0
+						if (bo.Op == token.NEQ) != pos {
+							k = 1
+						}
+						nonEmptyEdges = append(nonEmptyEdges, Edge{ifi.Block(), k})
+					}
+					fix := func(in ssa.Instruction) bool {
+						s2, ok := in.(*ssa.Store)
+						return ok && s2 != st && BuildExpr(p, s2.Addr, nil).String() == want && nonEmptyString(p, fn, s2.Val, s2, 0)
+					}
+					edgeOK := func(e Edge) bool {
+						for _, n := range nonEmptyEdges {
+							if n.B == e.B && n.K == e.K {
+								return false
+							}
+						}
+						return true
+					}
+					okPath = len(nonEmptyEdges) > 0
+					for in := range Reach(fn, st, fix, edgeOK) {
+						if fix(in) {
+							continue
+						}
+						if _, isRet := in.(*ssa.Return); isRet {
+							okPath = false
+						}
+						if ci, isCall := in.(ssa.CallInstruction); isCall {
+							if o := calleeObj(ci.Common()); o != nil && o.Pkg() != nil && o.Pkg().Path() == pkgHTTP && (o.Name() == "SetCookie" || objName(o) == "Header.Add" || objName(o) == "Header.Set") {
+								okPath = false
+							}
+						}
+					}
+				}
+				r.Check(okPath, "C11.R7", FName(fn)+": the affinity cookie's Path is never empty", p.InstrPos(st), "a non-empty constant, or a configured path on the edge that found it non-empty",
 					"the cookie can be issued with an empty Path ("+truncate(BuildExpr(p, st.Val, nil).String(), 80)+"): a client scopes it to the directory of the first page, so its requests to other paths carry no cookie, are re-balanced and receive a second cookie — the client is no longer pinned to one server")
 			}
 		}
